@@ -273,6 +273,8 @@ func checkC01(c *Ctx) {
 	checkUpsertTargets(c, "C01.R6")
 	c.Rule("C01.R7", "offered again after a restart: a message leased by an earlier process returns to the queue because the expired-lease release dominates candidate selection on every dequeue and can be refused only by the time-based granularity throttle (no process-local state suppresses it) — the analysis of C05.R1, claimed here for the restart clause")
 	checkSweepBeforeSelect(c, "C01.R7")
+	c.Rule("C01.R8", "store options receive the configuration values of their own name: no call from package app to a queue.With* option passes to one parameter a value derived only from the configuration field that another parameter of the same call is named after (retention max_age vs prune_interval, depth vs policy)")
+	checkOptionWiring(c, "C01.R8")
 }
 
 var storeLeaseMethods = map[string]bool{"Ack": true, "Nack": true, "MarkDead": true, "Extend": true}
